@@ -174,7 +174,7 @@ func tokenize(s string) ([]tok, error) {
 }
 
 func isIdentStart(c byte) bool { return c == '_' || c == '$' || unicode.IsLetter(rune(c)) }
-func isIdentChar(c byte) bool  { return isIdentStart(c) || (c >= '0' && c <= '9') }
+func isIdentChar(c byte) bool  { return isIdentStart(c) || (c >= '0' && c <= '9') || c == '@' }
 
 // ---- parser ----
 
